@@ -119,8 +119,4 @@ Proof.
 Qed.
 Print Assumptions C13_clobbering_rename_not_restored_refuted.
 
-(* hypotheses are satisfiable by a non-trivial value *)
-Example C13_restores_example :
-  let o := apply_model w_x (FPhase 2 EIO) w_fs w_inv0 in
-  wf w_fs /\ o_stage o = SPhase /\ o_dirty o = false /\ List.length (o_trace o) = 5 /\ o_fs o = w_fs.
-Proof. exact restores_nontrivial. Qed.
+(* hypotheses are satisfiable by a non-trivial value: Theory/TransformApply13.v, Example restores_nontrivial *)
